@@ -972,6 +972,199 @@ def check_fetch(ctx, rel, cls, cname):
            label="returns cached or computed value")
 
 
+def _self_deps(func):
+    """closure: local name -> set of `self.<x>` names (attributes and called
+    methods) its value is computed from; returns (deps, of)"""
+    deps = {}
+
+    def of(expr):
+        out = set()
+        for n in ast.walk(expr):
+            if is_self_attr(n):
+                out.add(n.attr)
+            elif isinstance(n, ast.Name) and n.id in deps:
+                out |= deps[n.id]
+        return out
+    for _ in range(10):
+        changed = False
+        for n in walk(func):
+            if isinstance(n, ast.Assign):
+                d = of(n.value)
+                for t in n.targets:
+                    if isinstance(t, ast.Name) and not d <= deps.get(
+                            t.id, set()):
+                        deps[t.id] = deps.get(t.id, set()) | d
+                        changed = True
+        if not changed:
+            break
+    return deps, of
+
+
+def _is_empty_value(v):
+    return (isinstance(v, ast.Constant) and v.value is None) or (
+        isinstance(v, (ast.Dict, ast.List, ast.Set)) and not (
+            getattr(v, "keys", None) or getattr(v, "elts", None))) or (
+        isinstance(v, ast.Call) and call_name(v) in ("dict", "list", "set")
+        and not v.args and not v.keywords)
+
+
+def _memo_attrs(cls):
+    """memo attributes: set in __init__, (re)filled lazily elsewhere"""
+    init = [f for f in cls.body if isinstance(f, ast.FunctionDef)
+            and f.name == "__init__"]
+    if not init:
+        return set()
+    in_init = {t.attr for n in walk(init[0]) if isinstance(n, ast.Assign)
+               for t in n.targets if is_self_attr(t)}
+    filled = set()
+    for f in cls.body:
+        if isinstance(f, ast.FunctionDef) and f.name != "__init__":
+            for n in walk(f):
+                if isinstance(n, ast.Assign):
+                    for t in n.targets:
+                        if is_self_attr(t) and not _is_empty_value(n.value):
+                            filled.add(t.attr)
+                        elif isinstance(t, ast.Subscript) and is_self_attr(
+                                t.value):
+                            filled.add(t.value.attr)
+    return in_init & filled
+
+
+def _resets_of(func, attr):
+    """statements of `func` that empty the memo `attr`"""
+    out = []
+    for n in walk(func):
+        if isinstance(n, ast.Assign) and any(
+                is_self_attr(t, attr) for t in n.targets) \
+                and _is_empty_value(n.value):
+            out.append(n)
+        elif isinstance(n, ast.Expr) and isinstance(n.value, ast.Call) \
+                and last_attr(n.value) == "clear" and isinstance(
+                n.value.func, ast.Attribute) and is_self_attr(
+                n.value.func.value, attr):
+            out.append(n)
+    return out
+
+
+def _memo_resets(ctx, cls, rel):
+    """reset-set ⊇ memo-set inside a lazy feature wrapper: a memo B whose
+    entries are computed from memo A (directly or through a method that
+    reads A) must be emptied wherever A is emptied"""
+    memos = _memo_attrs(cls)
+    methods = {f.name: f for f in cls.body if isinstance(f, ast.FunctionDef)}
+    reads = {name: {n.attr for n in walk(f) if is_self_attr(n)}
+             for name, f in methods.items()}
+    derived = {}        # B -> set of A
+    for name, f in methods.items():
+        if name == "__init__":
+            continue
+        deps, of = _self_deps(f)
+        for n in walk(f):
+            if not isinstance(n, ast.Assign):
+                continue
+            for t in n.targets:
+                b_ = t.value.attr if isinstance(t, ast.Subscript) \
+                    and is_self_attr(t.value) else (
+                    t.attr if is_self_attr(t) else None)
+                if b_ not in memos:
+                    continue
+                src = of(n.value)
+                for x in list(src):
+                    src |= reads.get(x, set()) if x in methods else set()
+                for a_ in (src & memos) - {b_}:
+                    derived.setdefault(b_, set()).add(a_)
+    if not derived:
+        raise AnalysisError(f"{cls.name}: no derived memo found (summary "
+                            f"cache no longer computed from the data memo?)")
+    for b_, srcs in sorted(derived.items()):
+        for a_ in sorted(srcs):
+            sites = []
+            for name, f in methods.items():
+                if name == "__init__":
+                    continue
+                ra = _resets_of(f, a_)
+                if not ra:
+                    continue
+                rb = _resets_of(f, b_)
+                cfg = CFG(f)
+                rb_ids = {i for x in rb for i in cfg.ids_of(x)}
+
+                def hit(n, ids=rb_ids):
+                    return n.id in ids
+                for x in ra:
+                    okx = all(
+                        cfg.must_pass(hit, src=i, avoid_edge=lambda p_, lab,
+                                      q_: lab == "x")
+                        or cfg.always_before(i, hit)
+                        for i in cfg.ids_of(x))
+                    sites.append((name, x, okx))
+            bad = [s_ for s_ in sites if not s_[2]]
+            ctx.ob("R20.3", not bad,
+                   f"{cls.name}: self.{b_} is computed from self.{a_}; "
+                   f"{len(sites)} site(s) empty self.{a_} outside __init__, "
+                   f"all of them also empty self.{b_}" if not bad else
+                   f"{cls.name}.{bad[0][0]} empties the data memo "
+                   f"self.{a_} but keeps self.{b_}, whose entries were "
+                   f"computed from it: stale min/max/mean are reported for "
+                   f"the re-fetched data",
+                   node=bad[0][1] if bad else cls,
+                   key=f"{rel}::{cls.name}::reset of {a_} also resets {b_}")
+
+
+def _refresh_survivors(ctx, repo, af):
+    """objects taken out of self._events must not be put back after the
+    clear unless they are reset through a method that empties every memo"""
+    deps = set()
+    for _ in range(6):
+        for n in walk(af):
+            pairs = []
+            if isinstance(n, ast.Assign):
+                pairs = [(t, n.value) for t in n.targets]
+            elif isinstance(n, (ast.For, ast.comprehension)):
+                pairs = [(n.target, n.iter)]
+            for tgt, val in pairs:
+                tainted = any(is_self_attr(x, "_events")
+                              for x in ast.walk(val)) or (
+                    names_in(val) & deps)
+                if tainted:
+                    for x in ast.walk(tgt):
+                        if isinstance(x, ast.Name):
+                            deps.add(x.id)
+    back = [n for n in walk(af) if isinstance(n, ast.Assign)
+            and isinstance(n.targets[0], ast.Subscript)
+            and is_self_attr(n.targets[0].value, "_events")
+            and names_in(n.value) & deps]
+    if not back:
+        ctx.ob("R20.3", True, "no object taken from the old feature cache "
+               "is put back after the refresh", node=af,
+               label="refresh keeps no old child object")
+        return
+    tree = repo.tree(HE)
+    for st in back:
+        names = names_in(st.value) & deps
+        calls = [c for c in walk(af) if isinstance(c, ast.Call)
+                 and isinstance(c.func, ast.Attribute)
+                 and isinstance(c.func.value, ast.Name)
+                 and c.func.value.id in names]
+        full = False
+        for c in calls:
+            for cls in tree.body:
+                if not isinstance(cls, ast.ClassDef):
+                    continue
+                m = [f for f in cls.body if isinstance(f, ast.FunctionDef)
+                     and f.name == c.func.attr]
+                memos = _memo_attrs(cls)
+                if m and memos and all(_resets_of(m[0], a_) for a_ in memos):
+                    full = True
+        ctx.ob("R20.3", full, "re-used child objects are reset completely "
+               "(every memo) before they are put back" if full else
+               f"`{short(st, 40)}` puts an object of the old feature cache "
+               f"back after the refresh without emptying all of its memos "
+               f"(data and min/max/mean): summaries of the previous state "
+               f"are reported", node=st,
+               label="refresh keeps no old child object")
+
+
 def r203(ctx, repo, cstores):
     h5 = repo.cls(EV, "H5ScalarEvent")
     ch = repo.cls(HE, "ChildScalar")
@@ -1017,6 +1210,9 @@ def r203(ctx, repo, cstores):
            "(and their summaries)" if ok else "apply_filter keeps the cached "
            "child features: summaries of the previous filter state are "
            "reported", node=af, label="refresh discards child caches")
+    _refresh_survivors(ctx, repo, af)
+    for rel_, cname_ in ((EV, "H5ScalarEvent"), (HE, "ChildScalar")):
+        _memo_resets(ctx, repo.cls(rel_, cname_), rel_)
     rj = repo.func(HB, "RTDC_Hierarchy.rejuvenate")
     ok = any(is_self_attr(c.func, "apply_filter")
              for c in find_calls(rj, attr="apply_filter"))
@@ -1102,17 +1298,65 @@ def r203(ctx, repo, cstores):
                node=f, label="features go through store_feature")
     # replace mode removes the dataset together with its attributes
     sf = wfunc(repo, WR, "RTDCWriter.store_feature")
-    dels = [n for n in walk(sf) if isinstance(n, ast.Delete)
-            and any(is_self_attr(x, "mode") for a in ancestors(n)
-                    if isinstance(a, ast.If) for x in ast.walk(a.test))]
-    whole = [d for d in dels if isinstance(d.targets[0], ast.Subscript)
-             and isinstance(d.targets[0].value, ast.Name)
-             and txt(d.targets[0].slice) == "feat"]
-    ok = bool(whole)
-    ctx.ob("R20.3", ok, "replace mode deletes the dataset object (its "
-           "summaries go with it)" if ok else "replace mode keeps the "
-           "dataset object: stale summaries are combined with the new data",
-           node=whole[0] if whole else sf,
+    guards = [n for n in walk(sf) if isinstance(n, ast.If)
+              and any(is_self_attr(x, "mode") for x in ast.walk(n.test))
+              and any(isinstance(d, ast.Delete) for d in walk(n))]
+    if len(guards) != 1:
+        ctx.ob("R20.3", False, "replace mode keeps the dataset object: stale "
+               "summaries are combined with the new data", node=sf,
+               label="replace removes stored summaries")
+        return
+    guard = guards[0]
+    cfg = CFG(sf)
+
+    def is_group_delete(st):
+        return isinstance(st, ast.Delete) and all(
+            isinstance(t, ast.Subscript) and not (
+                isinstance(t.value, ast.Attribute)
+                and t.value.attr == "attrs") for t in st.targets)
+
+    def is_attr_reset(st):
+        if isinstance(st, ast.Delete):
+            return any(isinstance(t, ast.Subscript) and isinstance(
+                t.value, ast.Attribute) and t.value.attr == "attrs"
+                for t in st.targets)
+        if isinstance(st, ast.Expr) and isinstance(st.value, ast.Call):
+            c = st.value
+            return last_attr(c) in ("pop", "clear") and isinstance(
+                c.func, ast.Attribute) and isinstance(
+                c.func.value, ast.Attribute) \
+                and c.func.value.attr == "attrs"
+        return False
+
+    def removes(n):
+        if n.ast is None:
+            return False
+        if n.kind == "stmt" and (is_group_delete(n.ast)
+                                 or is_attr_reset(n.ast)):
+            return True
+        if n.kind == "for":
+            # member-wise replacement (a dataset per key of the new data):
+            # the members that exist are deleted one by one; which members
+            # is decided by C01/R1.8
+            return any(is_group_delete(x) for x in walk(n.ast))
+        return False
+    starts = cfg.ids_of(guard.body[0]) if guard.body else []
+    ok = bool(starts) and all(
+        cfg.must_pass(removes, src=i,
+                      avoid_edge=lambda a_, lab, b_: lab == "x")
+        for i in starts)
+    keeps = [c for c in walk(guard) if isinstance(c, ast.Call)
+             and last_attr(c) == "resize"] + [
+        n for n in walk(guard) if isinstance(n, ast.Assign)
+        and isinstance(n.targets[0], ast.Subscript)
+        and isinstance(n.targets[0].slice, ast.Slice)]
+    ctx.ob("R20.3", ok, "on every path replace mode deletes the dataset "
+           "object (its summaries go with it)" if ok else
+           "replace mode can keep the dataset object "
+           + (f"(`{short(keeps[0], 40)}`) " if keeps else "")
+           + "without resetting its min/max/mean attributes: the stale "
+           "summaries are merged with those of the new data",
+           node=keeps[0] if keeps and not ok else guard,
            label="replace removes stored summaries")
 
 
